@@ -114,6 +114,23 @@ Proof. exact query_log_first. Qed.
 Theorem isEmpty_is_take_one : forall stages parts, fst (run_query QIsEmpty stages parts) = take_log 1 stages parts.
 Proof. exact query_log_isEmpty'. Qed.
 
+(* -- histories: several actions on ONE dataset object ----------------------------------------------------------- *)
+(* A dataset keeps no state between actions unless it is persisted (the model of a history is [map] of the model of one
+   query -- [run_history]); so in any sequence of queries on an uncached lineage, each single-pass action again calls
+   every user function exactly once per element, whatever ran before it (the same action, another member of the
+   stats family, a take ...), and each take(n) evaluates exactly what it evaluates on a fresh dataset.  The content
+   is on the correspondence side: the harness runs such sequences on one RDD object and compares every per-action log. *)
+Theorem history_each_action_exactly_once : forall stages qs parts i a,
+  uncached stages = true -> nth_error qs i = Some (QAction a) ->
+  exists l r, nth_error (run_history stages qs parts) i = Some (l, r) /\
+    Permutation l (pipeline_events stages parts ++ action_events a stages parts) /\
+    NoDup (pipeline_events stages parts ++ action_events a stages parts).
+Proof. exact history_action_exactly_once. Qed.
+Theorem history_take_as_on_fresh_dataset : forall stages qs parts i n,
+  uncached stages = true -> nth_error qs i = Some (QTake n) ->
+  exists r, nth_error (run_history stages qs parts) i = Some (take_log n stages parts, r).
+Proof. exact history_take_same. Qed.
+
 (* -- non-vacuity / sanity ------------------------------------------------------------------------------------------ *)
 (* doctest of RDD.cache(): parallelize([1,2,3,4], 2).map(_map).cache(); first() runs _map on the first partition only *)
 Example cache_doctest :
@@ -148,3 +165,19 @@ Example elementwise_instance :
   count_occ event_eq_dec (job_log AForeach stages [[1; 2]; [3]]) (2, 0, 1, 3) = 1%nat /\
   action_events AForeach stages [[1; 2]; [3]] = [(3, 0, 0, 3); (3, 1, 0, 4)].
 Proof. vm_compute. repeat split. Qed.
+
+(* a history: stats twice and a collect after a take on the same uncached dataset log the same calls each time *)
+Example history_instance :
+  let stages := [SMap (fun x => x + 1)] in
+  uncached stages = true /\
+  map fst (run_history stages [QAction AStats; QAction AStats] [[1]; [2]]) =
+    [[(0, 0, 0, 1); (1, 0, 0, 1); (0, 1, 0, 2); (1, 1, 0, 2)]; [(0, 0, 0, 1); (1, 0, 0, 1); (0, 1, 0, 2); (1, 1, 0, 2)]] /\
+  map fst (run_history stages [QTake 1; QAction ACollect] [[1]; [2]]) =
+    [[(0, 0, 0, 1); (1, 0, 0, 1)]; [(0, 0, 0, 1); (1, 0, 0, 1); (0, 1, 0, 2); (1, 1, 0, 2)]].
+Proof. vm_compute. repeat split. Qed.
+
+(* a stage that drops everything does not stop the stages above it from being evaluated *)
+Example dropper_instance :
+  job_log ACollect [SMap (fun x => x + 1); SSample (fun _ => 0)] [[5]; [6]] =
+    [(0, 0, 0, 5); (1, 0, 0, 5); (2, 0, 0, 6); (0, 1, 0, 6); (1, 1, 0, 6); (2, 1, 0, 7)].
+Proof. vm_compute. reflexivity. Qed.
